@@ -86,3 +86,36 @@ func (it *MapIter[K, V]) Next() bool {
 
 func (it *MapIter[K, V]) K() K { return it.k }
 func (it *MapIter[K, V]) V() V { return it.v }
+
+// MapsKeys, MapsValues and MapsAll replace maps.Keys, maps.Values and maps.All of the standard library (go 1.23) in the
+// rewritten library (rule R13): push iterators that visit the map in the order the active run dictates. The results are
+// plain function values, assignable to iter.Seq / iter.Seq2.
+func MapsKeys[M ~map[K]V, K cmp.Ordered, V any](m M) func(yield func(K) bool) {
+	return func(yield func(K) bool) {
+		for it := Iter(m); it.Next(); {
+			if !yield(it.K()) {
+				return
+			}
+		}
+	}
+}
+
+func MapsValues[M ~map[K]V, K cmp.Ordered, V any](m M) func(yield func(V) bool) {
+	return func(yield func(V) bool) {
+		for it := Iter(m); it.Next(); {
+			if !yield(it.V()) {
+				return
+			}
+		}
+	}
+}
+
+func MapsAll[M ~map[K]V, K cmp.Ordered, V any](m M) func(yield func(K, V) bool) {
+	return func(yield func(K, V) bool) {
+		for it := Iter(m); it.Next(); {
+			if !yield(it.K(), it.V()) {
+				return
+			}
+		}
+	}
+}
